@@ -324,7 +324,10 @@ class AckMonitor(Monitor):
                 defn = json.loads(defn)
         except Exception:
             return
-        st, chain = self.locate_state(defn, info["name"])
+        try:
+            st, chain = self.locate_state(defn, info["name"]) if isinstance(info["name"], str) else (None, [])
+        except Exception:
+            st, chain = None, []        # (a definition the monitor cannot walk: poison definitions are C18's business, the monitor must never raise into the engine)
         if st is None or st.get("Type") in ("Parallel", "Map", "Fail") or not (st.get("End") is True or st.get("Type") == "Succeed"):
             return
         ex = self.mid_exec.get(rec["message_id"])
@@ -379,7 +382,10 @@ class AckMonitor(Monitor):
             except Exception:
                 pass
         if op == "basic_ack" and self.is_engine(conn) and self.is_eventq(rec.get("queue")):
-            self.note_branch_end_ack(rec)
+            try:
+                self.note_branch_end_ack(rec)
+            except Exception:
+                self.seen["a5_monitor_errors"] += 1
         if op == "basic_publish" and self.is_engine(conn) and rec["props"].get("reply_to") and rec["exchange"] == "":
             cid = rec["props"]["correlation_id"]
             self.rpc[cid] = dict(exec=self.mid_exec.get(self.base_cid(cid)) or self.exec_of_step(rec["step"]), state="out",
